@@ -48,6 +48,7 @@ func vxTokReuse(maxN int) {
 		vx.Assertf("C13.tok_reproducible", okA == okB, "structured error on one instance only")
 		if okA && okB {
 			vx.Assertf("C13.tok_reproducible", a.Code == b.Code && a.Message == b.Message, "fresh: %s %q, reused: %s %q", a.Code, a.Message, b.Code, b.Message)
+			vx.Assertf("C08.tok_same_error", a.Code == b.Code && a.Message == b.Message && a.Location == b.Location, "fresh instance: %s at %d:%d, reused instance: %s at %d:%d", a.Code, a.Location.Line, a.Location.Column, b.Code, b.Location.Line, b.Location.Column)
 			vx.Assertf("C13.tok_same_location", a.Location == b.Location, "fresh instance locates the error at %d:%d, reused instance at %d:%d", a.Location.Line, a.Location.Column, b.Location.Line, b.Location.Column)
 		}
 		return
